@@ -198,8 +198,9 @@ Gen<std::string> exp_gen(int lo, int hi) {
                             v = -v;
                         }
                         std::string num = std::to_string(v);
-                        // leading zeros are legal in an exponent
-                        num = std::string(size_t(std::get<3>(t) == 2 ? 2 : 0), '0') + num;
+                        // leading zeros are legal in an exponent (any number of them: 1e0000000005 is 1e5)
+                        static const size_t pad[] = {0, 0, 2};
+                        num = std::string(pad[std::get<3>(t)], '0') + num;
                         return std::get<0>(t) + s + num;
                     });
 }
@@ -386,6 +387,19 @@ Gen<Case> gen_case() {
                                      return std::get<5>(t) + s;
                                  }),
                         "nine-run");
+    // 7d exponents padded with many leading zeros (the field is 8..30 digits long, the value is small)
+    auto padded = finish(gen::map(gen::tuple(sign_gen(), digits_gen(1, 17, true), pbt::range<int>(0, 1), pbt::range<int>(5, 28), pbt::range<int>(0, 330),
+                                             pbt::pick<std::string>({"", "+", "-"})),
+                                  [](std::tuple<std::string, std::string, int, int, int, std::string> t) {
+                                      std::string d = std::get<1>(t);
+                                      std::string m = std::get<2>(t) ? d.substr(0, 1) + (d.size() > 1 ? "." + d.substr(1) : "") : d;
+                                      int         ev = std::get<4>(t);
+                                      if (std::get<5>(t) == "-" && ev > 300) {
+                                          ev -= 40; // stay above the smallest subnormal
+                                      }
+                                      return std::get<0>(t) + m + (ev % 2 ? "e" : "E") + std::get<5>(t) + std::string(size_t(std::get<3>(t)), '0') + std::to_string(ev);
+                                  }),
+                         "zero-padded-exponent");
     // 8 around the overflow threshold and beyond
     auto overflow = finish(gen::map(gen::tuple(sign_gen(), digits_gen(1, 20, true), pbt::range<int>(285, 340), pbt::range<int>(0, 1)),
                                     [](std::tuple<std::string, std::string, int, int> t) {
@@ -422,7 +436,7 @@ Gen<Case> gen_case() {
                      return std::get<0>(t) + m;
                  }),
         "malformed", 1);
-    return gen::oneOf(ints, bounds, decimals, decimals, intexp, longs, leadzeros, spelled, spelled, ties, carry, nines, overflow, overflow_plain, subnormal,
+    return gen::oneOf(ints, bounds, decimals, decimals, intexp, longs, leadzeros, spelled, spelled, ties, carry, nines, padded, overflow, overflow_plain, subnormal,
                       zeros, malformed);
 }
 
